@@ -365,3 +365,36 @@ Proof.
   rewrite Hev. unfold content at 1. rewrite Ha.
   repeat split; auto; destruct a; reflexivity.
 Qed.
+
+(* ------------------------------------------------------------------ *)
+(* C06, history form: the events of the i-th op of a history            *)
+
+Lemma run_ops_nth : forall c ops s i o,
+  nth_error ops i = Some o ->
+  nth_error (snd (run_ops c ops s)) i
+  = Some (snd (step c o (fst (run_ops c (firstn i ops) s)))).
+Proof.
+  intros c ops; induction ops as [|o' ops IH]; intros s i o H; [destruct i; discriminate|].
+  rewrite run_ops_cons. destruct i as [|i]; cbn [nth_error snd firstn] in *.
+  - injection H as <-. reflexivity.
+  - rewrite run_ops_cons; cbn [fst]. apply IH, H.
+Qed.
+
+(* In every history under a size trigger, the i-th op, if it appends a record,
+   writes it, consults the policy exactly once with the true size after the
+   write, and rotates iff that size exceeds the limit. *)
+Theorem size_rolls_exactly : forall limit rl a0 pre ops i chunks,
+  nth_error ops i = Some (Append chunks) ->
+  let c := {| trig := TSize limit; roll_by := rl |} in
+  let before := fst (run c a0 pre (firstn i ops)) in
+  let sz := (disk_len (files before) + blen (concat chunks))%N in
+  nth_error (snd (run c a0 pre ops)) (S i)
+  = Some [EWrote (concat chunks); EConsult sz sz (limit <? sz)%N].
+Proof.
+  intros limit rl a0 pre ops i chunks H c before sz. unfold run.
+  rewrite (run_ops_nth c (Restart a0 :: ops) (raw pre) (S i) (Append chunks)) by exact H.
+  cbn [firstn step]. f_equal.
+  assert (HR : reach c before) by apply reach_run.
+  destruct (rolls_iff_exceeds limit rl before chunks HR) as (Hev & _).
+  exact Hev.
+Qed.
